@@ -101,6 +101,8 @@ pub struct Profile {
     /// internal links inside table cells (C05 leaves cells undecided)
     pub cell_internal_links: bool,
     pub piped_wiki: bool,
+    /// list items whose first block is a code block, quote or table ("- ```")
+    pub item_block_first: bool,
 }
 
 impl Profile {
@@ -125,6 +127,7 @@ impl Profile {
             long_lists: 1,
             cell_internal_links: true,
             piped_wiki: true,
+            item_block_first: true,
         }
     }
     pub fn has(&self, c: &str) -> bool {
@@ -509,7 +512,21 @@ impl<'a> Gen<'a> {
             if first.is_empty() {
                 first.push(self.word());
             }
-            item.push(Blk::Para(first));
+            let block_first = self.p.item_block_first && !long && depth < self.p.max_depth && self.rng.chance(1, 12);
+            if block_first {
+                let b = match self.rng.below(3) {
+                    0 if self.p.quotes => self.quote(depth + 1),
+                    1 if self.p.tables => {
+                        tight = false;
+                        self.table()
+                    }
+                    _ if self.p.code => self.code(false),
+                    _ => Blk::Para(first.clone()),
+                };
+                item.push(b);
+            } else {
+                item.push(Blk::Para(first));
+            }
             // in long lists only the last items carry more than one block (keeps documents small)
             let multi = if long { items.len() + 6 >= n && self.rng.chance(2, 3) } else { self.rng.chance(1, 3) };
             if depth < self.p.max_depth && multi {
@@ -520,7 +537,7 @@ impl<'a> Gen<'a> {
                         0..=3 if !prev_is_list => self.list(depth + 1),
                         4..=5 => self.para(),
                         6 if self.p.code => self.code(false),
-                        7 if self.p.quotes && !matches!(item.last(), Some(Blk::Quote(_))) && !item.last().map(is_ref_para).unwrap_or(false) => self.quote(depth + 1),
+                        7 if self.p.quotes && !item.last().map(is_ref_para).unwrap_or(false) => self.quote(depth + 1),
                         // a block reference next to a quote would, once inlined as a quote, sit next to it
                         8 if self.p.block_refs && !matches!(item.last(), Some(Blk::Quote(_))) => match self.block_ref() {
                             Some(b) => b,
@@ -835,7 +852,8 @@ fn render_block(b: &Blk, st: &mut Style, defs: &mut Vec<(String, String)>, _firs
                     if k > 0 {
                         let needs_blank = !*tight
                             || !matches!(b, Blk::List(..) | Blk::Code(..) | Blk::Quote(..))
-                            || matches!(b, Blk::List(true, start, _, _) if *start != 1);
+                            || matches!(b, Blk::List(true, start, _, _) if *start != 1)
+                            || (matches!(b, Blk::Quote(..)) && matches!(item[k - 1], Blk::Quote(..)));
                         if needs_blank {
                             inner.push(String::new());
                         }
